@@ -1,3 +1,3 @@
 import pdo_check
 def run(ctx):
-    pdo_check.run(ctx, ["C12", "C12V", "C12R"])
+    pdo_check.run(ctx, ["C12", "C12V", "C12R", "C12S"], quick_edges=8000, walks=(40, 2500), secondary=3000)
